@@ -96,6 +96,12 @@ def changed_fields(pre, post, prefix=''):
                 tr.append(prefix + pn[hit] + rel[len(hit):] if hit is not None else c)
             out = tr
         return out
+    if isinstance(pre, EnumV) and isinstance(post, EnumV) and pre.variant is not None and pre.variant == post.variant \
+            and pre.path.startswith('core::option::Option'):
+        # `Some(record)` on both sides: the record's fields are reported as if it were held directly
+        pa, pb = pre.payload.get(pre.variant), post.payload.get(post.variant)
+        if isinstance(pa, list) and isinstance(pb, list) and len(pa) == len(pb) == 1:
+            return changed_fields(pa[0], pb[0], prefix)
     if not same(pre, post):
         out.append(prefix.rstrip('.'))
     return out
